@@ -83,6 +83,23 @@ STRESS = [
 ]
 
 
+# one heap object referenced from N places (N around the limits of 8- and 16-bit counters), all of it garbage afterwards
+FANIN_TEMPLATES = [
+    "local fs = [function() i for i in std.range(1, N)]; std.length(fs)",
+    "local o = {a: 1}; std.length(std.makeArray(N, function(i) o))",
+    "local x = [1, 2]; std.length(std.repeat([x], N))",
+    "local o = {me: self, arr: std.makeArray(N, function(i) $)}; std.length(o.arr)",
+    "local t = {v: 1}; std.length([t for i in std.range(1, N)])",
+    "local o = {k: 1}; std.length(std.objectFields({['f' + i]: o for i in std.range(1, N)}))",
+    "local base = {v: 0}; std.length(std.map(function(i) base {w: i}, std.range(1, N)))",
+]
+FANIN_N = [255, 256, 257, 65535, 65536, 65537, 70000]
+
+
+def fanin_programs(rng, k):
+    return [rng.choice(FANIN_TEMPLATES).replace("N", str(rng.choice(FANIN_N))).encode() for _ in range(k)]
+
+
 WIDE_TEMPLATES = [
     # arrays of W items whose source becomes garbage while items are still held by a builtin's in-flight state
     "std.sum(std.flatMap(function(x) local r = std.range(x, x + W); r, std.range(1, 40)))",
@@ -227,7 +244,7 @@ def conservation_shard(args):
     else:
         srv = Server()
     try:
-        progs = [s.encode() for s in STRESS]
+        progs = [s.encode() for s in STRESS] + fanin_programs(rng, 6) + [p for _, p in wide_programs(rng, 4)]
         while len(progs) < batch:
             fam, data = genbytes.gen_input(rng)
             progs.append(data)
@@ -242,8 +259,14 @@ def conservation_shard(args):
                 lines.append(f"LOAD {i} {hx('<p%d>' % i)} {hx(p)} 1")
                 lines.append(f"EVAL {i} {i} 0")
                 lines.append(f"MANI {i} 1")
-            lines.append("DROP all")
-            lines.append("GC")
+                if rng.random() < 0.15:
+                    lines.append("GC")            # explicit collections while results are still held
+            # every order of "collect" and "drop the results" must end at the baseline (a collection requested after the
+            # handles are gone has to run even if nothing was allocated since the previous one)
+            tail = rng.choice([["DROP all", "GC"], ["GC", "DROP all", "GC"], ["GC", "GC", "DROP all", "GC"], ["DROP all", "GC", "GC"],
+                               ["GCMODE every:1", f"LOAD 9999 {hx('<tail>')} {hx('[{a: i} for i in std.range(1, 20)]')} 1", "EVAL 9999 9999 0",
+                                "GCMODE never", "DROP all", "GC"]])
+            lines.extend(tail)
             marks.append(len(lines))
             lines.append("COUNT")
         agg.evaluations += rounds * len(progs)
@@ -406,7 +429,9 @@ def run(tier, seed):
             "while a builtin still holds its items, ui-tests corpus and its mutants) under never/default/"
             "every:1,2,3,7 and 4 random schedules in identical program states: complete outcome records (value walk, "
             "error debug incl. resolved spans, stack-trace hash, trace messages) must be equal; (3) a long-lived "
-            "Program returns to its baseline object count after each round of load/eval/manifest + drop + gc. "
+            "Program returns to its baseline object count after each round of load/eval/manifest (incl. programs in which one heap object "
+            "is referenced from 255..70000 places, and wide arrays) with explicit collections at random points and every order of "
+            "'collect' and 'drop the results' at the end of the round. "
             "distinct_nontrivial = distinct heap shapes at a collection + distinct programs during whose evaluation "
             "at least one schedule collected + conservation rounds.")
     return common.finish(PROP, tier, seed, total, rule, t0, exhaustive=None,
